@@ -533,28 +533,46 @@ func c09ScenarioList() []c09Scenario {
 		{name: "sql SELFU(derived(t) JOIN t) t:=@n+1|INC", tables: one, sql: true, heldFrom: 3, noCounter: true, bodies: func(d string) []func(*fsx.Proc) {
 			return sqlBodies(d, "VAR @n; SELECT t.n INTO @n FROM (SELECT MAX(n) AS m FROM t) AS mx JOIN t ON t.n = mx.m FOR UPDATE; UPDATE t SET n = @n + 1;", "UPDATE t SET n = n + 1;")
 		}},
+		// a locking SELECT holds its tables whatever it returns - also when it returns no record (check-then-insert), when it
+		// runs through a cursor or fills variables
+		{name: "sql held: SELFU t (no record)|INC t", tables: one, sql: true, heldFrom: 2, noCounter: true, bodies: func(d string) []func(*fsx.Proc) {
+			return sqlBodies(d, "SELECT n FROM t WHERE n < 0 FOR UPDATE; SELECT 1; SELECT 'end';", "UPDATE t SET n = n + 1;")
+		}},
+		{name: "sql held: SELFU t INTO (no record)|INC t", tables: one, sql: true, heldFrom: 3, noCounter: true, bodies: func(d string) []func(*fsx.Proc) {
+			return sqlBodies(d, "VAR @n; SELECT n INTO @n FROM t WHERE n < 0 FOR UPDATE; SELECT 1; SELECT 'end';", "UPDATE t SET n = n + 1;")
+		}},
+		{name: "sql held: cursor SELFU t (LIMIT 0)|INC t", tables: one, sql: true, heldFrom: 3, noCounter: true, thoroughOnly: true, bodies: func(d string) []func(*fsx.Proc) {
+			return sqlBodies(d, "DECLARE cur CURSOR FOR SELECT n FROM t LIMIT 0 FOR UPDATE; OPEN cur; SELECT 1; SELECT 'end';", "UPDATE t SET n = n + 1;")
+		}},
+		// a joined UPDATE (explicit FROM clause) reads and writes its target in one critical section
+		{name: "sql INC t FROM t JOIN u|INC t", tables: two, sql: true, bodies: func(d string) []func(*fsx.Proc) {
+			return sqlBodies(d, "UPDATE t SET t.n = t.n + 1 FROM t JOIN u ON u.n > -1;", "UPDATE t SET n = n + 1;")
+		}},
+		{name: "sql INC x FROM u JOIN t x|INC t", tables: two, sql: true, thoroughOnly: true, bodies: func(d string) []func(*fsx.Proc) {
+			return sqlBodies(d, "UPDATE x SET x.n = x.n + 1 FROM u JOIN t x ON u.n > -1;", "UPDATE t SET n = n + 1;")
+		}},
 		// every kind of data-changing statement holds its tables from its first step until the transaction ends: while the
 		// first process runs a further statement, the second cannot install new contents of the table
 		{name: "sql held: DELETE t|INC t", tables: one, sql: true, heldFrom: 2, noCounter: true, bodies: func(d string) []func(*fsx.Proc) {
-			return sqlBodies(d, "DELETE FROM t WHERE n < 0; SELECT 1;", "UPDATE t SET n = n + 1;")
+			return sqlBodies(d, "DELETE FROM t WHERE n < 0; SELECT 1; SELECT 'end';", "UPDATE t SET n = n + 1;")
 		}},
 		{name: "sql held: UPDATE t,u|INC u", tables: two, sql: true, revToo: true, counter: "u", heldFrom: 2, noCounter: true, bodies: func(d string) []func(*fsx.Proc) {
-			return sqlBodies(d, "UPDATE t, u SET t.n = t.n + 1, u.n = u.n FROM t JOIN u ON 1 = 1; SELECT 1;", "UPDATE u SET n = n + 1;")
+			return sqlBodies(d, "UPDATE t, u SET t.n = t.n + 1, u.n = u.n FROM t JOIN u ON 1 = 1; SELECT 1; SELECT 'end';", "UPDATE u SET n = n + 1;")
 		}},
 		{name: "sql held: DELETE t,u|INC u", tables: two, sql: true, revToo: true, counter: "u", heldFrom: 2, noCounter: true, bodies: func(d string) []func(*fsx.Proc) {
-			return sqlBodies(d, "DELETE t, u FROM t JOIN u ON t.n < 0; SELECT 1;", "UPDATE u SET n = n + 1;")
+			return sqlBodies(d, "DELETE t, u FROM t JOIN u ON t.n < 0; SELECT 1; SELECT 'end';", "UPDATE u SET n = n + 1;")
 		}},
 		// a read-only statement on the held table's file through an inline table function must not give the hold away
 		{name: "sql held: INC t, inline read of t.csv|INC t", tables: one, sql: true, heldFrom: 2, bodies: func(d string) []func(*fsx.Proc) {
-			return sqlBodies(d, "UPDATE t SET n = n + 1; SELECT COUNT(*) FROM CSV_INLINE(',', `"+d+"/t.csv`); SELECT 1;", "UPDATE t SET n = n + 1;")
+			return sqlBodies(d, "UPDATE t SET n = n + 1; SELECT COUNT(*) FROM CSV_INLINE(',', `"+d+"/t.csv`); SELECT 1; SELECT 'end';", "UPDATE t SET n = n + 1;")
 		}},
 		{name: "sql held: SELFU t, table function and inline reads of t.csv|INC t", tables: one, sql: true, heldFrom: 2, noCounter: true, thoroughOnly: true, bodies: func(d string) []func(*fsx.Proc) {
-			return sqlBodies(d, "SELECT n FROM t FOR UPDATE; SELECT COUNT(*) FROM CSV(',', `t.csv`) x; SELECT COUNT(*) FROM CSV_INLINE(',', `"+d+"/t.csv`); SELECT 1;", "UPDATE t SET n = n + 1;")
+			return sqlBodies(d, "SELECT n FROM t FOR UPDATE; SELECT COUNT(*) FROM CSV(',', `t.csv`) x; SELECT COUNT(*) FROM CSV_INLINE(',', `"+d+"/t.csv`); SELECT 1; SELECT 'end';", "UPDATE t SET n = n + 1;")
 		}},
 		// statements that run other program text (SOURCE, EXECUTE, a prepared statement) are part of the transaction
 		{name: "sql held: SELFU t, SOURCE, EXECUTE, prepared|INC t", tables: one, sql: true, heldFrom: 2, noCounter: true, bodies: func(d string) []func(*fsx.Proc) {
 			os.WriteFile(filepath.Join(d, "src.sql"), []byte("SELECT 1;\n"), 0644)
-			return sqlBodies(d, "SELECT n FROM t FOR UPDATE; SOURCE `"+d+"/src.sql`; EXECUTE 'SELECT 2'; PREPARE st FROM 'SELECT 3'; EXECUTE st; SELECT 4;", "UPDATE t SET n = n + 1;")
+			return sqlBodies(d, "SELECT n FROM t FOR UPDATE; SOURCE `"+d+"/src.sql`; EXECUTE 'SELECT 2'; PREPARE st FROM 'SELECT 3'; EXECUTE st; SELECT 4; SELECT 'end';", "UPDATE t SET n = n + 1;")
 		}},
 		// a data-changing statement whose own query reads the table it changes: read and write are one critical section
 		{name: "sql INSERT t SELECT MAX(t)+1|same", tables: one, sql: true, seqInsert: true, bodies: func(d string) []func(*fsx.Proc) {
@@ -564,16 +582,16 @@ func c09ScenarioList() []c09Scenario {
 			return sqlBodies(d, "INSERT INTO t VALUES ((SELECT MAX(n) + 1 FROM t));", "INSERT INTO t SELECT MAX(n) + 1 FROM t;")
 		}},
 		{name: "sql held: INSERT t|INC t", tables: one, sql: true, heldFrom: 2, noCounter: true, thoroughOnly: true, bodies: func(d string) []func(*fsx.Proc) {
-			return sqlBodies(d, "INSERT INTO t VALUES (100); SELECT 1;", "UPDATE t SET n = n + 1;")
+			return sqlBodies(d, "INSERT INTO t VALUES (100); SELECT 1; SELECT 'end';", "UPDATE t SET n = n + 1;")
 		}},
 		{name: "sql held: REPLACE t|INC t", tables: one, sql: true, heldFrom: 2, noCounter: true, thoroughOnly: true, bodies: func(d string) []func(*fsx.Proc) {
-			return sqlBodies(d, "REPLACE INTO t (n) USING (n) VALUES (5); SELECT 1;", "UPDATE t SET n = n + 1;")
+			return sqlBodies(d, "REPLACE INTO t (n) USING (n) VALUES (5); SELECT 1; SELECT 'end';", "UPDATE t SET n = n + 1;")
 		}},
 		{name: "sql held: ALTER t|INC t", tables: one, sql: true, heldFrom: 2, noCounter: true, thoroughOnly: true, bodies: func(d string) []func(*fsx.Proc) {
-			return sqlBodies(d, "ALTER TABLE t ADD c; SELECT 1;", "UPDATE t SET n = n + 1;")
+			return sqlBodies(d, "ALTER TABLE t ADD c; SELECT 1; SELECT 'end';", "UPDATE t SET n = n + 1;")
 		}},
 		{name: "sql held: INSERT-SELECT u<-t|INC u", tables: two, sql: true, counter: "u", heldFrom: 2, noCounter: true, thoroughOnly: true, bodies: func(d string) []func(*fsx.Proc) {
-			return sqlBodies(d, "INSERT INTO u SELECT n FROM t; SELECT 1;", "UPDATE u SET n = n + 1;")
+			return sqlBodies(d, "INSERT INTO u SELECT n FROM t; SELECT 1; SELECT 'end';", "UPDATE u SET n = n + 1;")
 		}},
 		{name: "sql INC|SEL", tables: one, sql: true, bodies: func(d string) []func(*fsx.Proc) { return sqlBodies(d, "UPDATE t SET n = n + 1;", "SELECT n FROM t;") }},
 		{name: "sql INC,ROLLBACK|INC", tables: one, sql: true, bodies: func(d string) []func(*fsx.Proc) {
